@@ -210,6 +210,17 @@ func Run(t *testing.T, sc Sched, wantLog, wantDec bool, body func(e *Env)) Outco
 	return out
 }
 
+// LogStacks appends the stacks of all bubble goroutines to the event log
+// (debugging aid; only when the log is on).
+func (e *Env) LogStacks(why string) {
+	if !e.logOn {
+		return
+	}
+	buf := make([]byte, 1<<20)
+	buf = buf[:runtime.Stack(buf, true)]
+	e.log = append(e.log, "STACKS "+why+"\n"+bubbleStacks(string(buf)))
+}
+
 // bubbleStacks keeps the goroutines that belong to a synctest bubble.
 func bubbleStacks(all string) string {
 	var keep []string
